@@ -66,6 +66,7 @@ func main() {
 	t0 := time.Now()
 	pf := eng.Profiles["query"]()
 	pf.W[eng.KOpenQuery], pf.W[eng.KStepQuery], pf.W[eng.KCloseQuery] = 0, 0, 0
+	pf.LeakPct = 0
 	o := &eng.Opts{MaxComponents: *maxComps, Avoid: map[string]bool{}}
 	var mu sync.Mutex
 	for c := *shard; c < *cases; c += *nshards {
@@ -210,9 +211,13 @@ func main() {
 					defer wg.Done()
 					var local []string
 					var nq, nv int64
+					signalled := false
 					defer func() {
 						if p := recover(); p != nil {
 							local = append(local, fmt.Sprintf("goroutine %d panicked: %v", gi, p))
+						}
+						if holdAll && !signalled {
+							opened.Done() // a goroutine that failed before opening its query must not block the others
 						}
 						mu.Lock()
 						msgs = append(msgs, local...)
@@ -229,7 +234,15 @@ func main() {
 						}
 						order := d.FilterOrder(s.spec)
 						hold := holdAll && si == 0
-						n, errs := runQuery(d, m, tf, uf, s.spec, s.qrels, s.rels, order, want, s.mode, gi, G, hold, &opened, release)
+						var onOpen func()
+						if hold {
+							onOpen = func() {
+								signalled = true
+								opened.Done()
+								<-release
+							}
+						}
+						n, errs := runQuery(d, m, tf, uf, s.spec, s.qrels, s.rels, order, want, s.mode, gi, G, onOpen)
 						nq++
 						nv += int64(n)
 						local = append(local, errs...)
@@ -317,7 +330,7 @@ func main() {
 // runQuery runs one query from one goroutine and compares it with the expectation. Only goroutine-local
 // state is written; component values are only read (and written) for entities of this goroutine's partition.
 func runQuery(d *eng.Drv, m *eng.Model, tf typed.TFilter, uf ecs.UnsafeFilter, spec *eng.FSpec, qrels []eng.RelT, shared []ecs.Relation, order []int,
-	want map[ecs.Entity]int, mode, gi, G int, hold bool, opened *sync.WaitGroup, release chan struct{}) (int, []string) {
+	want map[ecs.Entity]int, mode, gi, G int, onOpen func()) (int, []string) {
 	var errs []string
 	seen := map[ecs.Entity]int{}
 	n := 0
@@ -328,9 +341,8 @@ func runQuery(d *eng.Drv, m *eng.Model, tf typed.TFilter, uf ecs.UnsafeFilter, s
 			args = d.Rels(qrels, order, style)
 		}
 		q := tf.Query(args)
-		if hold {
-			opened.Done()
-			<-release
+		if onOpen != nil {
+			onOpen()
 		}
 		switch mode {
 		case 0: // count only, then close
@@ -391,9 +403,8 @@ func runQuery(d *eng.Drv, m *eng.Model, tf typed.TFilter, uf ecs.UnsafeFilter, s
 	} else {
 		all := append(append([]eng.RelT{}, spec.Rels...), qrels...)
 		q := uf.Query(d.Rels(all, nil, gi%2)...)
-		if hold {
-			opened.Done()
-			<-release
+		if onOpen != nil {
+			onOpen()
 		}
 		if mode == 0 {
 			if c := q.Count(); c != len(want) {
